@@ -692,11 +692,45 @@ func init() {
 	reg("(*sync.Cond).Signal", func(in *Interp, fr *frame, a []Value) Value { in.condSignal(a[0].(*Value), false); return nil })
 	reg("(*sync.Cond).Broadcast", func(in *Interp, fr *frame, a []Value) Value { in.condSignal(a[0].(*Value), true); return nil })
 	reg("time.After", func(in *Interp, fr *frame, a []Value) Value { return in.newTimerChan() })
+	// time.Sleep blocks until the harness environment lets time pass (verifrt.WakeSleepers); with a
+	// single goroutine it returns immediately.
 	reg("time.Sleep", func(in *Interp, fr *frame, a []Value) Value {
-		if in.sched != nil {
-			in.sched.yield(nil, "sleep")
+		if in.sched != nil && len(in.sched.gs) > 1 {
+			s := in.sched
+			gen := s.sleepGen
+			s.yield(func() bool { return s.sleepGen != gen }, "sleep")
 		}
 		return nil
+	})
+	reg(vrtPath+"WakeSleepers", func(in *Interp, fr *frame, a []Value) Value {
+		if in.sched != nil {
+			in.sched.sleepGen++
+		}
+		return nil
+	})
+	reg("time.NewTicker", func(in *Interp, fr *frame, a []Value) Value {
+		// tickers never fire under the engine (keepalive timing is outside the model)
+		tt := in.pkgType("time", "Ticker")
+		st := zero(tt).(Struct)
+		st[0] = &Chan{cap: 1}
+		v := Value(st)
+		return &v
+	})
+	reg("(*time.Ticker).Stop", func(in *Interp, fr *frame, a []Value) Value { return nil })
+	reg("context.WithTimeout", func(in *Interp, fr *frame, a []Value) Value {
+		return Tuple{a[0], &Native{name: "cancel", fn: func(in *Interp, args []Value) Value { return nil }}}
+	})
+	reg("(context.backgroundCtx).Deadline", func(in *Interp, fr *frame, a []Value) Value {
+		return Tuple{zero(in.pkgType("time", "Time")), tFalse}
+	})
+	// the TCP-MD5 dialer is the environment: the harness provides the connection
+	reg("go.universe.tf/metallb/internal/bgp/native.dialMD5", func(in *Interp, fr *frame, a []Value) Value {
+		p := in.prog.ImportedPackage("go.universe.tf/metallb/internal/bgp/native")
+		hook := p.Func("vhDial")
+		if hook == nil {
+			in.abort("dialMD5: no harness dial hook")
+		}
+		return in.call(fr, 0, hook, nil)
 	})
 	reg(vrtPath+"Yield", func(in *Interp, fr *frame, a []Value) Value {
 		// let every other goroutine run until it blocks: the caller is blocked until nobody else can run
